@@ -211,6 +211,10 @@ def check(prop, tier, seed):
                     # twin-compared properties: the witness needs its twin in the same run
                     if prop == "C12" and "@1 " in k["witness"]:
                         lines.append(k["witness"].replace("@1 ", "@0 ").replace("scribble=1", "scribble=0"))
+                    if prop == "C04":
+                        mw = re.match(r"id=(\S+)-[^-@\s]+@\d+ (.*)", k["witness"])
+                        if mw:
+                            lines.append(f"id={mw.group(1)}-twin@- " + re.sub(r"fault=\d+", "fault=-", mw.group(2)))
             seen_ids = set()
             lines = [l for l in lines if not (l.split(" ", 1)[0] in seen_ids or seen_ids.add(l.split(" ", 1)[0]))]
             nlines += len(lines)
@@ -259,7 +263,8 @@ def check(prop, tier, seed):
             for k in known:
                 reasons = k.get("reasons") or [k["reason"]]
                 sites = k.get("sites") or [k["site"]]
-                if any(fnmatch.fnmatchcase(site, s_) for s_ in sites) and reason in reasons:
+                ctx_ok = ("ctx" not in k) or (field(detail, "ctx") in k["ctx"])
+                if any(fnmatch.fnmatchcase(site, s_) for s_ in sites) and reason in reasons and ctx_ok:
                     hit = k
                     break
             if hit is not None:
